@@ -2,7 +2,7 @@ SPECIFICATION Spec
 CONSTANTS
   VCodec = "none"
   ACodec = "opus"
-  MaxPub = 10
+  MaxPub = 9
   MaxVer = 3
   VKinds <- NoKinds
   DtPool <- Dt5
